@@ -995,3 +995,60 @@ def zero_argument_division_rule(ctx, rid, scope, pname="dt", min_instances=1):
                         r.fail(f.qualname, f"zero-{pname}-division:{h.qualname.split('.')[-1]}", f.file, n.lineno, f.name, f"`{norm_text(n)[:60]}` passes {pname} = 0; along {' -> '.join(path + [h.qualname.split('.')[-1]])} it reaches `{norm_text(node)[:50]}` ({h.file}:{node.lineno}) with no test of {pname}: 0/0 = NaN when that branch is active (e.g. a rate law on the spectral path)")
                     else:
                         r.ok(f"{f.qualname}: {pname}=0 reaches no unguarded division")
+
+
+def decorator_memo_rule(ctx, rid, class_filter, min_instances=1):
+    """Methods memoised by the cache decorator (key: method name and arguments) on classes selected by `class_filter`:
+    every attribute of self the memoised value is computed from (directly, or through the self-methods / properties it
+    calls) is either never stored after construction, or each method / setter that stores it clears the memo
+    (clear_cached_computed_values).  Witness of a violation: the storing method -- compute, call it, read again."""
+    from .flow import CallGraph, self_stores, self_reads
+
+    repo = ctx.repo
+    cg = CallGraph(repo)
+    r = ctx.rule(rid, "decorator-memoised methods: every self attribute the memoised value depends on is immutable after construction, or each method that stores it clears the memo", min_instances=min_instances)
+    for ci in sorted(repo.classes.values(), key=lambda c: c.qualname):
+        if not class_filter(ci):
+            continue
+        cached = [f for f in {id(f): f for c in ci.mro for f in c.methods.values() if f.cls is c and f.is_cached()}.values()]
+        if not cached:
+            continue
+        # stores after construction, by attribute, over the class, its bases and its subclasses
+        classes = [c for c in ci.mro if not c.qualname.startswith("builtins")]
+        storers = {}
+        for c in classes:
+            for g in list(c.methods.values()) + list(c.setters.values()):
+                if g.cls is not c or g.name in ("__init__", "__new__", "__setstate__"):
+                    continue
+                for a, n, kind in self_stores(g):
+                    storers.setdefault(a, []).append(g)
+        for f in sorted(cached, key=lambda f: f.qualname):
+            r.instance(fn=f.qualname)
+            # transitive reads through self
+            reads, seen, todo = set(), set(), [f]
+            while todo:
+                g = todo.pop()
+                if id(g) in seen:
+                    continue
+                seen.add(id(g))
+                for a in self_reads(g):
+                    reads.add(a)
+                for h in cg.callees(g):
+                    if h.cls is not None and h.cls in ci.mro:
+                        todo.append(h)
+            bad = None
+            for a in sorted(reads):
+                for g in storers.get(a, []):
+                    clears = any(isinstance(n, ast.Call) and (dotted(n.func) or "").split(".")[-1] == "clear_cached_computed_values" for h in cg.reachable([g], limit=50) for n in ast.walk(h.node))
+                    if not clears:
+                        bad = (a, g)
+                        break
+                if bad:
+                    break
+            if bad:
+                a, g = bad
+                kind = "setter" if g.is_setter() else "method"
+                short = a.split("__")[-1] if "__" in a else a
+                r.fail(g.qualname + (".setter" if g.is_setter() else ""), f"stale-memo:{short}", g.file, g.lineno, f"{g.cls.name}.{g.name}", f"the {kind} {g.cls.name}.{g.name} stores self.{short} without clearing the memo of the decorator-memoised methods computed from it (e.g. {f.cls.name}.{f.name}, keyed by its arguments only): compute, assign, read again -> the value of the old state")
+            else:
+                r.ok(f"{f.qualname}: inputs immutable or memo cleared by their mutators")
